@@ -95,14 +95,14 @@ package ro
 //@   ensures [contention-is-dropped|C01] tried(mu) && !trylock(mu) ==> trace(call.NewNotificationNext(v), hook.OnDroppedNotification(ctx, _))
 
 //@ func (*subscriberImpl).ErrorWithContext
-//@   props C01 C02 C03 C06 C14
+//@   props C01 C02 C03 C06 C14 C07
 //@   inline (*subscriberImpl).unsubscribe
 //@   track destination.* hook.* call.NewNotification* Subscription.* spawn.*
 //@   ensures [winner-delivers-then-tears-down|C01,C03,C06,C14] cas_ok(status) && s.destination != nil ==> trace(destination.ErrorWithContext(ctx, err), Subscription.Unsubscribe())
 //@   ensures [winner-nil-destination|C03] cas_ok(status) && s.destination == nil ==> trace(Subscription.Unsubscribe())
 //@   ensures [loser-is-dropped|C01] !cas_ok(status) ==> trace(call.NewNotificationError(err), hook.OnDroppedNotification(ctx, _), Subscription.Unsubscribe())
 //@   ensures [teardown-outside-producer-lock|C03,C06] notheldat(mu, Subscription.Unsubscribe)
-//@   ensures [terminal-waits-for-lock|C02] !tried(mu) && count(lock.mu) == 1
+//@   ensures [terminal-waits-for-lock|C02,C07] !tried(mu) && count(lock.mu) == 1
 //@   ensures [closed-on-return|C06] s.status != 0
 
 //@ func (*subscriberImpl).CompleteWithContext
@@ -113,7 +113,7 @@ package ro
 //@   ensures [winner-nil-destination|C03] cas_ok(status) && s.destination == nil ==> trace(Subscription.Unsubscribe())
 //@   ensures [loser-is-dropped|C01] !cas_ok(status) ==> trace(call.NewNotificationComplete(), hook.OnDroppedNotification(ctx, _), Subscription.Unsubscribe())
 //@   ensures [teardown-outside-producer-lock|C03,C06] notheldat(mu, Subscription.Unsubscribe)
-//@   ensures [terminal-waits-for-lock|C02] !tried(mu) && count(lock.mu) == 1
+//@   ensures [terminal-waits-for-lock|C02,C07] !tried(mu) && count(lock.mu) == 1
 //@   ensures [closed-on-return|C06] s.status != 0
 
 //@ func (*subscriberImpl).Unsubscribe
@@ -155,7 +155,7 @@ package ro
 //@   ensures [initial-teardown-first|C03] teardown != nil ==> result.finalizers[0] == teardown
 
 //@ func (*subscriptionImpl).Add
-//@   props C03 C06 C14
+//@   props C03 C06 C14 C07
 //@   panicforks
 //@   maypanic
 //@   track callfn.*
@@ -239,5 +239,5 @@ package ro
 //@   ensures [destination-is-wrapped-in-a-gate-of-the-observable-mode|C01,C02] arg(call.NewSubscriberWithConcurrencyMode, 0) == destination && arg(call.NewSubscriberWithConcurrencyMode, 1) == s.mode
 //@   ensures [subscribe-sees-only-the-gate|C01] arg(callfn.subscribe, 0) == ctx && arg(callfn.subscribe, 1) == res(call.NewSubscriberWithConcurrencyMode)
 //@   ensures [teardown-registered|C03,C14] !panicked(subscribe) && !caught ==> trace(call.NewSubscriberWithConcurrencyMode(_, _), callfn.subscribe(_, _), subscription.Add(res(callfn.subscribe)))
-//@   ensures [panic-becomes-error-then-release|C07] panicked(subscribe) ==> trace(call.NewSubscriberWithConcurrencyMode(_, _), callfn.subscribe(_, _), subscription.ErrorWithContext(ctx, newObservableError(recoverValueToError(panicval(subscribe)))), subscription.Unsubscribe())
+//@   ensures [panic-becomes-error-then-release|C01,C07] panicked(subscribe) ==> trace(call.NewSubscriberWithConcurrencyMode(_, _), callfn.subscribe(_, _), subscription.ErrorWithContext(ctx, newObservableError(recoverValueToError(panicval(subscribe)))), subscription.Unsubscribe())
 //@   ensures [returns-the-gate|C01] result == res(call.NewSubscriberWithConcurrencyMode)
